@@ -99,6 +99,60 @@ theorem nx_zero_after_pad (alg : MD σ) (m : Bytes) :
     rw [List.length_append]; exact pad_len _
   simp only [stateOf, blocksGo_chunks alg.block alg.init _ hz]
 
+/-! ### digests in the middle of a (possibly astronomically long) message
+
+The `at` op family starts from a digest whose chaining value, buffered tail and 64-bit byte count are
+set directly (hook VerifNewAt).  These theorems say what Sum must return there — for every `len`,
+including the lengths where 8·len no longer fits 32, 53 or 64 bits. -/
+
+/-- a digest is consistent when the buffered tail is `len mod 64` bytes long -/
+def Consistent (d : Digest σ) : Prop := d.x.length = d.len.toNat % 64
+
+theorem write_consistent (alg : MD σ) (d : Digest σ) (p : Bytes) (h : Consistent d) :
+    Consistent (write alg d p) := by
+  have hx : d.x.length < 64 := by rw [h]; exact Nat.mod_lt _ (by decide)
+  unfold Consistent at h ⊢
+  rw [write_eq alg d p hx]
+  simp only
+  have hl : ∀ (s : σ) (q : Bytes), (blocksGo alg.block s q).2.length = q.length % 64 := by
+    intro s q
+    fun_induction blocksGo alg.block s q with
+    | case1 s q hq ih => rw [ih, List.length_drop]; exact (Nat.mod_eq_sub_mod hq).symm
+    | case2 s q hq =>
+      show q.length = _
+      exact (Nat.mod_eq_of_lt (by omega)).symm
+  rw [hl, List.length_append, h, UInt64.toNat_add, UInt64.toNat_ofNat']
+  have : (2:Nat) ^ 64 = 64 * 2 ^ 58 := by decide
+  omega
+
+/-- **Sum at an arbitrary total length**: the digest of "state `s`, tail `x`, `len` bytes so far" is
+    the fold over `x ‖ pad(len)` where the pad carries 8·len mod 2^64 as 8 little-endian bytes -/
+theorem sum_at (alg : MD σ) (s : σ) (x : Bytes) (len : UInt64) (pre : Bytes)
+    (hx : x.length = len.toNat % 64) :
+    sum alg ⟨s, x, len⟩ pre =
+      some (pre ++ alg.out ((chunks 64 (x ++ mdPad len.toNat)).foldl alg.block s)) := by
+  have hlt : x.length < 64 := by rw [hx]; exact Nat.mod_lt _ (by decide)
+  have hlen : len = UInt64.ofNat len.toNat := by simp
+  unfold sum
+  simp only
+  have h1 := write_eq alg ⟨s, x, len⟩ (padBytes len) hlt
+  rw [h1]
+  rw [write_eq alg _ _ (blocksGo_tail_lt _ _ _)]
+  simp only
+  rw [← blocksGo_append, List.append_assoc]
+  conv => lhs; rw [hlen, sumWrites_eq_mdPad]
+  have hz : (x ++ mdPad len.toNat).length % 64 = 0 := by
+    rw [List.length_append, hx]
+    have := pad_len len.toNat
+    omega
+  rw [blocksGo_chunks alg.block s _ hz]
+  simp
+
+/-- non-vacuity: at len = 2^29 (536 870 912 bytes) the bit count 2^32 no longer fits the low word: the
+    length field is 00 00 00 00 01 00 00 00 -/
+example : lenBytes (UInt64.ofNat (2 ^ 29)) = [0, 0, 0, 0, 1, 0, 0, 0] ∧
+    lenBytes (UInt64.ofNat (2 ^ 61 + 1)) = [8, 0, 0, 0, 0, 0, 0, 0] := by decide
+
 /-! ### histories: any interleaving of Write / Sum / Reset -/
 
 /-- reference semantics of a history: every `Sum(in)` returns `in ++ H(bytes written since the last Reset)` -/
